@@ -1974,13 +1974,17 @@ class VM:
         def indexOf(*args):
             search = to_string(args[0]) if args else ""
             start = to_integer(args[1]) if len(args) > 1 else 0
-            if start < 0:
-                start = 0
+            # The position is clamped to the string; Python's find gives -1
+            # for a start beyond the end even when searching for ""
+            start = min(max(start, 0), len(s))
             return s.find(search, start)
 
         def lastIndexOf(*args):
             search = to_string(args[0]) if args else ""
             end = to_integer(args[1], len(s)) if len(args) > 1 else len(s)
+            # The position is clamped to the string (a negative number is not
+            # relative to the end, as it would be for Python)
+            end = min(max(end, 0), len(s))
             # Python's rfind with end position
             return s.rfind(search, 0, end + len(search))
 
@@ -2093,16 +2097,19 @@ class VM:
         def startsWith(*args):
             search = to_string(args[0]) if args else ""
             pos = to_integer(args[1]) if len(args) > 1 else 0
+            pos = min(max(pos, 0), len(s))  # clamped, not relative to the end
             return s[pos:].startswith(search)
 
         def endsWith(*args):
             search = to_string(args[0]) if args else ""
             length = to_integer(args[1], len(s)) if len(args) > 1 else len(s)
+            length = min(max(length, 0), len(s))  # clamped, not relative to the end
             return s[:length].endswith(search)
 
         def includes(*args):
             search = to_string(args[0]) if args else ""
             pos = to_integer(args[1]) if len(args) > 1 else 0
+            pos = min(max(pos, 0), len(s))  # clamped, not relative to the end
             return search in s[pos:]
 
         def replace(*args):
